@@ -192,12 +192,13 @@ def exec (i : Instr) (ip' : Nat) (s : VM) : Step :=
       .next { s with stack := st.push v, mem := m }
     | some (_, st) => .error .type { s with stack := st }
   | .call argc =>
-    if s.stack.size < argc + 1 then .fault "call-base-pointer" else
     match pop1 s.stack with
     | none => .fault "pop"
     | some (.fn fip nl, st) =>
       if argc > nl then .error .argument { s with stack := st }
-      else if st.size + (nl - argc) > STACK_LIMIT then .error .index { s with stack := st }
+      else if st.size + nl > STACK_LIMIT || s.frames.length + 1 ≥ STACK_LIMIT then
+        .error .index { s with stack := st }
+      else if st.size < argc then .fault "call-base-pointer"
       else
         .next { s with stack := st ++ Array.replicate (nl - argc) .null,
                        frames := { ip := ip', bp := s.bp } :: s.frames,
